@@ -81,6 +81,11 @@ struct RecordingHistory {
     absent: Rc<Cell<bool>>,
     updates: Rc<Cell<u64>>,
     update_err: Rc<Cell<Option<u8>>>,
+    /// the clock the adapter reads, and whether this history takes exclusive access to it while it
+    /// answers (a history that resynchronises the clock it shares with its adapter; the adapter has read
+    /// the clock by then and has no reason to still hold it)
+    clock: Reference<SimClock>,
+    touch_clock: Rc<Cell<bool>>,
 }
 fn encode(t: i64) -> f32 {
     (t.rem_euclid(1_000_003)) as f32
@@ -88,6 +93,9 @@ fn encode(t: i64) -> f32 {
 impl History<f32, E> for RecordingHistory {
     fn get(&self, time: Time) -> Option<Datum<f32>> {
         self.asked.borrow_mut().push(time.0);
+        if self.touch_clock.get() {
+            let _exclusive = self.clock.borrow_mut();
+        }
         if self.absent.get() {
             None
         } else {
@@ -98,6 +106,9 @@ impl History<f32, E> for RecordingHistory {
 impl Updatable<E> for RecordingHistory {
     fn update(&mut self) -> NothingOrError<E> {
         self.updates.set(self.updates.get() + 1);
+        if self.touch_clock.get() {
+            let _exclusive = self.clock.borrow_mut();
+        }
         match self.update_err.get() {
             Some(k) => Err(err_of(k)),
             None => Ok(()),
@@ -167,8 +178,9 @@ pub fn execute(plan: &Plan, ctx: &mut Ctx) {
     let habsent = Rc::new(Cell::new(false));
     let hupdates = Rc::new(Cell::new(0u64));
     let hupderr = Rc::new(Cell::new(None));
+    let htouch = Rc::new(Cell::new(false));
     let mut histories: Vec<RecordingHistory> = (0..n_hist)
-        .map(|_| RecordingHistory { asked: asked.clone(), absent: habsent.clone(), updates: hupdates.clone(), update_err: hupderr.clone() })
+        .map(|_| RecordingHistory { asked: asked.clone(), absent: habsent.clone(), updates: hupdates.clone(), update_err: hupderr.clone(), clock: clock_ref.clone(), touch_clock: htouch.clone() })
         .collect();
     let mut hist_iter = histories.iter_mut();
     let mut adapter: Option<GetterFromHistory<f32, SimClock, E>> = None;
@@ -205,6 +217,13 @@ pub fn execute(plan: &Plan, ctx: &mut Ctx) {
                 "CLK" => {
                     clk = Ok(op.arg(0));
                     clock.set(Ok(Time(op.arg(0))));
+                    None
+                }
+                // TICK k: from now on the clock is a free-running counter that advances by k ns at every
+                // READ (0: stands still between operations again). Every operation below is one call into
+                // the crate: what it returns and stores must belong to ONE instant, its first reading.
+                "TICK" => {
+                    CLOCK_TICK_PER_GET.with(|c| c.set(op.arg(0).clamp(0, 1000)));
                     None
                 }
                 "CLKE" => {
@@ -500,6 +519,11 @@ pub fn execute(plan: &Plan, ctx: &mut Ctx) {
                     habsent.set(op.arg(0) != 0);
                     None
                 }
+                // HTOUCH k: from now on the history takes exclusive access to the shared clock while it answers
+                "HTOUCH" => {
+                    htouch.set(op.arg(0) != 0);
+                    None
+                }
                 "HUERR" => {
                     hupderr.set(if op.arg(0) == 0 { None } else { Some(op.arg(0) as u8) });
                     None
@@ -531,9 +555,12 @@ pub fn execute(plan: &Plan, ctx: &mut Ctx) {
                         // HGET 1: the clock is a free-running counter during this call (advances at every
                         // read): the result must belong to ONE instant - the first reading
                         let ticking = op.arg(0) == 1;
-                        CLOCK_TICK_PER_GET.with(|c| c.set(if ticking { 7 } else { 0 }));
+                        let tick_before = CLOCK_TICK_PER_GET.with(|c| c.get());
+                        if ticking {
+                            CLOCK_TICK_PER_GET.with(|c| c.set(7));
+                        }
                         let got = norm(&a.get());
-                        CLOCK_TICK_PER_GET.with(|c| c.set(0));
+                        CLOCK_TICK_PER_GET.with(|c| c.set(tick_before));
                         if ticking {
                             ctx.count("reach.adapter_get_on_ticking_clock");
                         }
@@ -607,6 +634,15 @@ pub fn execute(plan: &Plan, ctx: &mut Ctx) {
             }
             Ok(None) => {}
         }
+        if CLOCK_TICK_PER_GET.with(|c| c.get()) != 0 {
+            // the counter has moved on during the call: follow it
+            if let (Ok(_), Ok(t)) = (clk, clock.peek()) {
+                clk = Ok(t.0);
+            }
+            if code != "TICK" {
+                ctx.count("reach.call_on_ticking_clock");
+            }
+        }
         // fault / reach counters (from the plan and the model only)
         match code {
             "CLK" => {
@@ -634,6 +670,9 @@ pub fn execute(plan: &Plan, ctx: &mut Ctx) {
             }
             "HTIME" if adapter.is_some() => ctx.count("reach.set_time_after_clock_moved"),
             "HGET" if adapter.is_some() => {
+                if htouch.get() {
+                    ctx.count("reach.history_touches_shared_clock");
+                }
                 ctx.count("reach.adapter_get");
                 ctx.nontrivial = true;
             }
@@ -720,6 +759,11 @@ pub fn generate(prop: &str, tier: Tier, rng: &mut Rng, seed: u64, run: u64) -> P
             }
         }
     }
+    // in a fifth of the runs the clock is, for stretches, a free-running counter
+    let ticking_run = rng.chance(0.2);
+    if ticking_run && rng.chance(0.5) {
+        plan.push("TICK", &[7]);
+    }
     if rng.chance(0.5) {
         plan.push("HNEW", &[rng.below(4) as i64, tval(rng)]);
     }
@@ -727,7 +771,12 @@ pub fn generate(prop: &str, tier: Tier, rng: &mut Rng, seed: u64, run: u64) -> P
         let s = rng.below(4) as i64;
         uniq += 1.0;
         match rng.below(20) {
-            0 | 1 => plan.push("CLK", &[tval(rng)]),
+            0 | 1 => {
+                plan.push("CLK", &[tval(rng)]);
+                if ticking_run && rng.chance(0.5) {
+                    plan.push("TICK", &[*rng.pick(&[0, 1, 7, 7, 1000])]);
+                }
+            }
             2 => {
                 if rng.chance(fault * 2.0) {
                     plan.push("CLKE", &[rng.range(1, 3)]);
@@ -775,6 +824,9 @@ pub fn generate(prop: &str, tier: Tier, rng: &mut Rng, seed: u64, run: u64) -> P
             16 | 17 => {
                 if rng.chance(0.2) {
                     plan.push("HABS", &[rng.below(2) as i64]);
+                }
+                if rng.chance(0.15) {
+                    plan.push("HTOUCH", &[rng.below(2) as i64]);
                 }
                 if rng.chance(0.15) {
                     plan.push("HUERR", &[if rng.chance(0.5) { 0 } else { rng.range(1, 3) }]);
